@@ -163,11 +163,28 @@ func (w *ewWorld) genSpec() *ewSpec {
 	return sp
 }
 
+// ewNodeName: node -1 is "not scheduled yet" (a Pending pod: the pod controller's predicate never lets it through, the
+// record collector must treat it as a pod that needs its record)
+func ewNodeName(node int) string {
+	if node < 0 {
+		return ""
+	}
+	return ewNodes[node].name
+}
+
+// pendingPod: the pod of that name exists and is not scheduled
+func (w *ewWorld) pendingPod(k string) bool {
+	w.mu.Lock()
+	defer w.mu.Unlock()
+	p := w.rawPod(k)
+	return p != nil && p.Spec.NodeName == ""
+}
+
 func (w *ewWorld) buildPod(k string, uid int, node int) *corev1.Pod {
 	sp := w.spec[k]
 	p := &corev1.Pod{ObjectMeta: metav1.ObjectMeta{Name: k, Namespace: ewNS, UID: k8stypes.UID(ewUID(k, uid)),
 		Annotations: map[string]string{}, Labels: map[string]string{}, Finalizers: []string{"verif/hold"}},
-		Spec:   corev1.PodSpec{NodeName: ewNodes[node].name, HostNetwork: sp.hostNet, Containers: []corev1.Container{{Name: "c", Image: "i"}}},
+		Spec:   corev1.PodSpec{NodeName: ewNodeName(node), HostNetwork: sp.hostNet, Containers: []corev1.Container{{Name: "c", Image: "i"}}},
 		Status: corev1.PodStatus{Phase: corev1.PodRunning}}
 	if sp.useENI {
 		p.Annotations[terwayTypes.PodENI] = "true"
@@ -502,7 +519,15 @@ func (w *ewWorld) envPod(k string) {
 		sp := w.spec[k]
 		uid := w.nextUID[k]
 		w.nextUID[k]++
-		np := w.buildPod(k, uid, sp.nodes[r.Intn(len(sp.nodes))])
+		node := sp.nodes[r.Intn(len(sp.nodes))]
+		// a Pending pod only where the previous instance has been dealt with (no record, or a fixed-IP record parked in
+		// Unbind): the pod controller does not see a pod without a node, so whatever its predecessor's events still had to
+		// trigger must have happened
+		if rec := w.rawRec(k); (rec == nil || (rec.Spec.HaveFixedIP() && rec.Status.Phase == networkv1beta1.ENIPhaseUnbind && rec.DeletionTimestamp.IsZero())) && r.Chance(25) {
+			node = -1 // stays Pending for its whole life
+			w.c.Count("env:podPending")
+		}
+		np := w.buildPod(k, uid, node)
 		if err := w.raw.Create(ctx, np); err != nil {
 			w.anomaly("pod create: " + err.Error())
 			return
@@ -689,7 +714,9 @@ func (w *ewWorld) runCase(seed uint64) {
 	for round := 0; round < 12; round++ {
 		before := w.digest()
 		for _, k := range w.names {
-			w.runToEnd(w.start("P", k, true))
+			if !w.pendingPod(k) {
+				w.runToEnd(w.start("P", k, true))
+			}
 			w.runToEnd(w.start("E", k, true))
 		}
 		if w.digest() == before {
@@ -754,6 +781,9 @@ func (w *ewWorld) stepOnce() {
 		w.mu.Lock()
 		_, busy := w.live[key]
 		w.mu.Unlock()
+		if kind == "P" && w.pendingPod(name) {
+			busy = true // processPod: events of a pod without a node never reach the pod controller
+		}
 		if !busy {
 			a := w.start(kind, name, false)
 			if r.Chance(45) {
